@@ -1099,7 +1099,22 @@ mod store {
         }));
         // C14: no data file grows beyond the configured maximum by more than one entry (bincode: 8 tstamp + 8 + key + 1 [+ 8 + value])
         let max_entry: u64 = ops.iter().map(|o| { let q: Vec<&str> = o.trim_start_matches('!').split(' ').collect(); match q[0] { "set" => 33 + q[1].len() as u64 + q[2].len() as u64, "del" => 17 + q[1].len() as u64, _ => 0 } }).max().unwrap_or(0);
+        // C14: every data file that appears has an id above every id the directory has contained so far (listed before each operation
+        // and after the last one; not in histories that put files of their own into the directory or damage it)
+        let mut ids_prev: std::collections::BTreeSet<u64> = std::collections::BTreeSet::new();
+        let mut id_top: Option<u64> = None;
+        let mut ids_oracle = |i: usize, had_fault: bool| {
+            if had_fault || hist.contains("precreate") || !crate::want("C14") { return; }
+            let mut now: std::collections::BTreeSet<u64> = std::collections::BTreeSet::new();
+            for e in std::fs::read_dir(dir.path()).unwrap() { let n = e.unwrap().file_name().to_string_lossy().to_string();
+                if let Some(x) = n.strip_suffix(".bitcask.data") { if let Ok(id) = x.parse::<u64>() { now.insert(id); } } }
+            for id in now.iter() { if !ids_prev.contains(id) { if let Some(t) = id_top { if *id <= t {
+                report(label, "C14", &hist, format!("before op {}: data file {} has appeared although the directory has already contained id {}; files {:?}", i, id, t, files(dir.path())), &format!("an id above {}: ids only grow and are never used again", t)); } } } }
+            if let Some(m) = now.iter().next_back() { if id_top.map_or(true, |t| *m > t) { id_top = Some(*m); } }
+            ids_prev = now;
+        };
         for (i, op) in ops.iter().enumerate() {
+            ids_oracle(i, had_fault);
             if i > 0 && max < (1u64 << 40) && !had_fault && !hist.contains("precreate") && crate::want("C14") {
                 for e in std::fs::read_dir(dir.path()).unwrap() { let e = e.unwrap(); let n = e.file_name().to_string_lossy().to_string();
                     if n.ends_with(".bitcask.data") { let sz = e.metadata().unwrap().len(); if sz > max + max_entry {
@@ -1165,7 +1180,11 @@ mod store {
                         }
                     } }
                 "reopen" => { had_reopen = true; drop(h); kv = None; std::thread::sleep(std::time::Duration::from_millis(30));
-                    match mk(dir.path()).open() { Ok(k) => kv = Some(k), Err(e) => report(label, if had_fault { "C02,C20" } else { "C02" }, &hist, format!("op {} reopen failed: {}; files {:?}", i, e, files(dir.path())), "the directory can be opened") } }
+                    match mk(dir.path()).open() { Ok(k) => kv = Some(k), Err(e) => {
+                        // AlreadyExists in a history that put no file of its own into the directory: the id chosen for the new active
+                        // file is not above the ids the directory contains (C14)
+                        let taken = e.to_string().contains("File exists") && !had_fault && !hist.contains("precreate");
+                        report(label, if had_fault { "C02,C20" } else if taken { "C02,C14" } else { "C02" }, &hist, format!("op {} reopen failed: {}; files {:?}", i, e, files(dir.path())), "the directory can be opened") } } }
                 // C12: the directory opened with its hint files and a copy of it opened without them must be the same store
                 "ls" => { println!("# op {} files {:?} stats {:?}", i, files(dir.path()), h.verif_dump().1); }
                 "checkhints" if !crate::want("C12") => {}
@@ -1213,6 +1232,7 @@ mod store {
                 _ => panic!("bad op {}", op),
             }
         }
+        ids_oracle(ops.len(), had_fault);
         done.store(true, std::sync::atomic::Ordering::SeqCst);
     }
 
